@@ -406,3 +406,16 @@ func init() {
 	RegisterNamed("TagMutB", TagMutB{})
 	markRecursive()
 }
+
+// RefNode refers to its parent through a field whose codec is registered under
+// a tag for the struct type itself (C17: a "reference" codec).
+type RefNode struct {
+	ID     int      `plenc:"1"`
+	Parent *RefNode `plenc:"2,ref"`
+	Name   string   `plenc:"3"`
+}
+
+func init() {
+	RegisterNamed("RefNode", RefNode{})
+	markRecursive()
+}
